@@ -238,7 +238,10 @@ def loadParts (s : State) : List Part → Option (List Bundle)
     | some b, some bs => some (b :: bs)
     | _, _ => none
 
-/-- The parser returns `b` from a reader positioned at the start of `b.bytes`, whatever follows. -/
+/-- The parser returns `b` from a reader positioned at the start of `b.bytes`, whatever follows.
+(`bpv7.ParseBundle` also validates: a bundle whose lifetime is exceeded at read time is rejected, so
+`WF` includes "not yet expired by its own creation time + lifetime"; the store's `Expires` field is
+independent of that and is what the expiry sweep looks at.) -/
 def WF (b : Bundle) : Prop := ∀ rest, parse (b.bytes ++ rest) = some b
 
 end Read
